@@ -19,6 +19,11 @@ CHECKS = {
   text="History + executable model: real TemplateLookup objects over real files run operation histories on a virtual clock (codegen time, LRU timer and module mtimes driven by the harness); every template prints uri@dir#version so each get_template result is judged against the model's prediction (same object and zero constructions / new object with the current version / exception class), and after every operation the 1.5n bound and the eviction order are checked against the model's recency list. All histories of length <=4 (quick) / <=5 (thorough) over a 10-operation alphabet are enumerated under 4 configurations; longer ones are random.",
   note="Trusted: the lookup model in checks/c14.py and the virtual clock shims; same-second modifications are accepted either way as the statement allows. One open known finding (module file shared between directories).",
   technique="recorded operation histories checked against an executable lookup model on a virtual clock"),
+ "C15": dict(
+  category="fault_enumeration", design_ref="DESIGN.md §2 C15",
+  text="Fault enumeration in child processes: a file-system fault injector wraps the calls made for the module file (exists/stat/makedirs/mkstemp/write/close/move/rename), a fault-free pass counts them, and then EVERY k-th call is made to raise, or the process is killed before it, after it, or midway through the write (50%, 99%); after each crash the module path must hold nothing, the complete previous or the complete new module (byte comparison with a reference run on the same logical clock), and a fresh process as well as the current one must load and render the current source. In-process histories (all of length <=4/5 over 7 operations) are judged by a staleness model incl. inode/bytes stability and module_writer call counts; 2-8 processes race on the same Template.",
+  note="Trusted: os._exit models process death with the kernel intact; power-loss/fsync ordering is invisible from user space; short writes that do not kill the process are not injected.",
+  technique="file-system fault injection at every call + crash-state oracle + staleness model over histories"),
  "C19": dict(
   category="exploration", design_ref="DESIGN.md §2 C19",
   text="CPython is the runtime oracle: random expression trees over the whole ast expression grammar (depth<=5) are re-emitted by Mako's ExpressionGenerator and compared by ast.dump and by value, and a sample runs end-to-end as def/page defaults and filter-call arguments; generated statement blocks (functions with every parameter kind, lambdas, comprehensions, try/with/loops/imports) run under strict_undefined with exactly the names CPython's symtable says they need and must equal native exec, and must raise NameError naming a removed name; 18 tricky block shapes are re-margined at 0..12 spaces/tabs in <% %> and <%! %> and compared with native exec.",
